@@ -1,6 +1,6 @@
 (* C10 — the edns writer wrapper of a job slab across requests (wave 3). *)
 From Coq Require Import String Ascii.
-From Sdns Require Import Common.Base Gen.C10 C10.Model C10.ModelShare C10.ModelEdns.
+From Sdns Require Import Common.Base Common.GoList Gen.C10 C10.Model C10.ModelShare C10.ModelEdns.
 Open Scope nat_scope.
 
 Fixpoint sbytes (s : string) : list N :=
@@ -102,4 +102,24 @@ Lemma base_writer_reset_covers :
   existsb (str_eqb (sbytes "Transport")) base_writer_reset_assigns = true.
 Proof. repeat split. Qed.
 Lemma writer_reset_forgets w w' t tcp ip : wf_reset w t tcp ip = wf_reset w' t tcp ip.
+Proof. reflexivity. Qed.
+
+(* udpTXBurst.full: the model's burst_full compares the burst's length with udp_tx_max *)
+Lemma gen_udpTXBurst_full b : go_udpTXBurst_full b = (T_udpTXBurst_n b =? Z.of_N udp_tx_max)%Z.
+Proof. reflexivity. Qed.
+(* udpJob.LeaseWire: an empty slice at offset udp_lease_start of the slab's own TX buffer, whatever
+   the slab held before; a capacity beyond the buffer gets nil *)
+Lemma gen_udpJob_LeaseWire j cap :
+  go_udpJob_LeaseWire j cap = [] /\
+  ((cap <= Z.of_N udp_buf_size)%Z -> go_udpJob_LeaseWire j cap = go_slice_to (T_udpJob_tx j) (Z.of_N udp_lease_start)).
+Proof.
+  unfold go_udpJob_LeaseWire. split.
+  - destruct (4096 <? cap)%Z; reflexivity.
+  - intros H. destruct (4096 <? cap)%Z eqn:E; [apply Z.ltb_lt in E; unfold udp_buf_size in H; lia|reflexivity].
+Qed.
+
+(* doq.releaseMsg clears every header field and section of a pooled request message (source text) *)
+Lemma doq_release_tie :
+  doq_release_assigns = map sbytes ["Id"; "Response"; "Opcode"; "Authoritative"; "Truncated"; "RecursionDesired";
+    "RecursionAvailable"; "Zero"; "AuthenticatedData"; "CheckingDisabled"; "Rcode"; "Question"; "Answer"; "Ns"; "Extra"]%string.
 Proof. reflexivity. Qed.
